@@ -111,6 +111,11 @@ func Do(ctx context.Context, st *oci.Store, s *Script, o Op, dir string) error {
 		return st.Tag(ctx, descOf(s.Blob(o.Blob), o.Variant), RefName(o.Ref))
 	case "untag":
 		return st.Untag(ctx, RefName(o.Ref))
+	case "tagdigest":
+		b := s.Blob(o.Blob)
+		return st.Tag(ctx, Desc(b), b.Digest())
+	case "untagdigest":
+		return st.Untag(ctx, s.Blob(o.Blob).Digest())
 	case "delete":
 		return st.Delete(ctx, descOf(s.Blob(o.Blob), o.Variant))
 	case "saveindex":
@@ -170,4 +175,93 @@ func ChildMain(dir, scriptPath string) int {
 	mark(MarkEnd)
 	os.Stdout.WriteString("F " + s.Final.String() + " " + ErrName(err) + "\n")
 	return 0
+}
+
+// ConcMain is the child of the concurrency stream: history, "READY", then one goroutine
+// per operation list, all released at once.  The parent kills the process at an arbitrary
+// moment after READY.
+func ConcMain(dir, scriptPath string) int {
+	data, err := os.ReadFile(scriptPath)
+	if err != nil {
+		fmt.Println("CHILD-ERROR", err)
+		return 3
+	}
+	s, err := ParseScript(data)
+	if err != nil {
+		fmt.Println("CHILD-ERROR", err)
+		return 3
+	}
+	syscall.Umask(0o022)
+	ctx := context.Background()
+	st, err := oci.New(dir)
+	if err != nil {
+		fmt.Println("CHILD-ERROR new:", err)
+		return 4
+	}
+	st.AutoGC = false
+	for _, o := range s.History {
+		Do(ctx, st, s, o, dir)
+	}
+	start := make(chan struct{})
+	done := make(chan struct{})
+	for _, ops := range s.Conc {
+		go func(ops []Op) {
+			<-start
+			for _, o := range ops {
+				Do(ctx, st, s, o, dir)
+			}
+			done <- struct{}{}
+		}(ops)
+	}
+	os.Stdout.WriteString("READY\n")
+	close(start)
+	for range s.Conc {
+		<-done
+	}
+	// all calls have returned: index.json must be the index of the resolver
+	// (C10_conc_quiescent_synced); judged by the parent when it did not kill us first
+	os.Stdout.WriteString("SYNC " + SyncReport(ctx, st, dir) + "\n")
+	os.Stdout.WriteString("DONE\n")
+	return 0
+}
+
+// SyncReport compares the Store's resolver (Tags / Resolve) with index.json on disk.
+func SyncReport(ctx context.Context, st *oci.Store, dir string) string {
+	idx, status := ReadRawIndex(dir)
+	if status != "ok" {
+		return "index.json is " + status
+	}
+	mem := map[string]string{}
+	err := st.Tags(ctx, "", func(tags []string) error {
+		for _, t := range tags {
+			d, err := st.Resolve(ctx, t)
+			if err != nil {
+				return fmt.Errorf("Resolve(%s): %v", t, err)
+			}
+			mem[t] = d.Digest.String()
+		}
+		return nil
+	})
+	if err != nil {
+		return "Tags: " + err.Error()
+	}
+	disk := map[string]string{}
+	for _, m := range idx.Manifests {
+		if r, ok := m.Annotations[refNameKey]; ok {
+			disk[r] = m.Digest
+		} else if _, err := st.Resolve(ctx, m.Digest); err != nil {
+			return "index.json has the digest-only entry " + m.Digest + " which the resolver does not know"
+		}
+	}
+	for r, d := range mem {
+		if disk[r] != d {
+			return fmt.Sprintf("the resolver has %s -> %s, index.json has %q", r, d, disk[r])
+		}
+	}
+	for r, d := range disk {
+		if mem[r] != d {
+			return fmt.Sprintf("index.json has %s -> %s, the resolver has %q", r, d, mem[r])
+		}
+	}
+	return "ok"
 }
